@@ -48,12 +48,15 @@ def inplace_ops(tkey):
     if t.type == "MetaModule":
         ops += [{"k": "mm_count", "v": 3}, {"k": "mm_count", "v": 96}, {"k": "mm_label", "i": 0, "v": "lbl"},
                 {"k": "mm_map", "i": 0, "v": [1, 2]}, {"k": "mm_inner_module"}, {"k": "mm_inner_name"},
-                {"k": "mm_uvalue", "i": 1, "v": 1234}]
+                {"k": "mm_uvalue", "i": 1, "v": 1234}, {"k": "mm_remap_seq", "first": "MultiSynth.transpose"},
+                {"k": "mm_remap_seq", "first": "VorbisPlayer.finetune"}, {"k": "mm_remap_seq", "first": "Lfo.freq"},
+                {"k": "mm_remap_seq", "first": "Amplifier.balance"}]
     if t.type == "Sampler":
         ops += [{"k": "sm_env_append", "e": "volume_envelope"}, {"k": "sm_env_append", "e": "pitch_envelope"},
                 {"k": "sm_env_point0", "e": "panning_envelope"}, {"k": "sm_env_flag", "e": "volume_envelope"},
                 {"k": "sm_env_append", "e": "effect0"}, {"k": "sm_notemap"}, {"k": "sm_sample", "i": 0},
-                {"k": "sm_sample", "i": 127}, {"k": "sm_effect"}, {"k": "sm_vibrato"}]
+                {"k": "sm_sample", "i": 127}, {"k": "sm_effect"}, {"k": "sm_vibrato"}, {"k": "sm_legacy_side", "points": 0},
+                {"k": "sm_legacy_side", "points": 2}]
     if t.type == "SpectraVoice":
         ops += [{"k": "sv_harmonic", "i": 0}, {"k": "sv_harmonic", "i": 15}]
     return ops
@@ -102,6 +105,45 @@ def apply_inplace(mod, op):
     elif k == "mm_inner_name":
         mod.project.name = "inner"
         mod.project.initial_bpm = 99
+    elif k == "mm_remap_seq":
+        # one slot synced twice: first onto a controller with a special range object (compact / no-offset /
+        # unit-dependent / negative minimum), then re-mapped onto a plain range and synced again
+        tname, cname = op["first"].split(".")
+        first = mod.project.new_module(getattr(rv.m, tname))
+        second = mod.project.new_module(rv.m.Amplifier)
+        mod.user_defined_controllers = max(mod.user_defined_controllers, 1)
+        mp = mod.mappings.values[0]
+        mp.module, mp.controller = first.index, list(first.controllers).index(cname)
+        mod.update_user_defined_controllers()
+        mp.module, mp.controller = second.index, list(second.controllers).index("volume")
+        mod.update_user_defined_controllers()
+        mod.set_raw("user_defined_1", 300)
+    elif k == "sm_legacy_side":
+        # a SIDE object: an old-layout file (no envelope chunks, legacy point counts as given) is loaded and its
+        # upgraded envelopes are edited in place; nothing of that may reach `mod` or any later Sampler
+        from struct import unpack
+
+        from rvref import codec
+
+        chunks = codec.parse_chunks(C.save(rv.Synth(rv.m.Sampler())))
+        out, skip = [], False
+        for cid, d in chunks:
+            if cid == b"CHNM":
+                (num,) = unpack("<I", d)
+                skip = 0x102 <= num <= 0x108
+            elif cid not in (b"CHDT", b"CHFF", b"CHFR"):
+                skip = False
+            if skip:
+                continue
+            if cid == b"CHDT" and len(d) == 400 and d[0xFC:0x100] == b"PMAS":
+                d = bytearray(d)
+                d[0xE4] = d[0xE5] = op["points"]
+                d = bytes(d)
+            out.append((cid, d))
+        side = C.load_bytes(codec.build_chunks(out)).module
+        side.volume_envelope.points.append((0x111, 0x2222))
+        side.panning_envelope.points.append((0x111, 0x1000))
+        side.volume_envelope.points[:1] = [(0, 0x1234)]
     elif k == "mm_uvalue":
         mod.user_defined_controllers = max(mod.user_defined_controllers, op["i"] + 1)
         setattr_ud(mod, op["i"], op["v"])
